@@ -5,10 +5,15 @@
 (* generation (history in the state; the driver replays every printed        *)
 (* behaviour on the real functions).                                         *)
 EXTENDS Local
-CONSTANT D                      \* depth of generated behaviours
+CONSTANTS D,                    \* depth of generated behaviours
+          GI, GJ                \* behaviour generation runs one process per station: LatSeq[GI], LonSeq[GJ]
 
-MCLats == {<<-1, 0, 1>>, <<0, 1, 1>>, <<3, 4, 5>>, <<-4, 3, 5>>, <<1, 0, 1>>}
-MCLons == {<<0, 1, 1>>, <<1, 0, 1>>, <<0, -1, 1>>, <<-1, 0, 1>>, <<3, 4, 5>>, <<4, -3, 5>>, <<-4, -3, 5>>, <<-3, 4, 5>>}
+LatSeq == << <<-1, 0, 1>>, <<0, 1, 1>>, <<3, 4, 5>>, <<-4, 3, 5>>, <<1, 0, 1>> >>
+LonSeq == << <<0, 1, 1>>, <<1, 0, 1>>, <<0, -1, 1>>, <<-1, 0, 1>>, <<3, 4, 5>>, <<4, -3, 5>>, <<-4, -3, 5>>, <<-3, 4, 5>> >>
+MCLats == {LatSeq[i] : i \in 1..Len(LatSeq)}
+MCLons == {LonSeq[i] : i \in 1..Len(LonSeq)}
+GenLats == {LatSeq[GI]}
+GenLons == {LonSeq[GJ]}
 \* quick exhaustive run: three latitudes (south pole, equator, 36.87) x three longitudes (0, 143.13, -143.13)
 MCLatsQ == {<<-1, 0, 1>>, <<0, 1, 1>>, <<3, 4, 5>>}
 MCLonsQ == {<<0, 1, 1>>, <<4, -3, 5>>, <<-4, -3, 5>>}
@@ -24,6 +29,8 @@ MCPairs == << << << <<4, 1, 0>>, <<1, 3, 1>>, <<0, 1, 2>> >>, << <<0, 0, 0>>, <<
 MCKInts == <<-5, 0, 1, 2, 119, 120, 121, 200>>
 MCKArgs == [i \in 1..9 |-> IF i <= 8 THEN [int |-> TRUE, v |-> MCKInts[i]] ELSE [int |-> FALSE, v |-> 2]]
 
+ASSUME PrintT(<<"PAIRS", MCPairs>>)
+NoKArgs == <<>>
 View == <<pos, frame, val, orig, out>>
 Emit == IF Len(h) = D THEN PrintT(<<"BEH", pos, orig[1], orig[2], h>>) ELSE TRUE
 Bound == Len(h) <= D /\ Emit
